@@ -1,6 +1,7 @@
 package rules
 
 import (
+	"go/token"
 	"fmt"
 	"go/constant"
 	"go/types"
@@ -55,6 +56,39 @@ func runC13(p *core.Prog, r *core.Report, tier string) {
 		}
 	}
 	r.Floor("C13.c validator states known", len(stateConsts), 10)
+	// the library's own predicates on the state (go-eth2-client api/v1/validatorstate.go, read at v0.21.11):
+	// plain disjunctions over the enum; listed here so that a predicate written in terms of them is evaluated
+	libPred := map[string][]string{
+		"IsPending":    {"ValidatorStatePendingInitialized", "ValidatorStatePendingQueued"},
+		"IsActive":     {"ValidatorStateActiveOngoing", "ValidatorStateActiveExiting", "ValidatorStateActiveSlashed"},
+		"HasActivated": {"ValidatorStateActiveOngoing", "ValidatorStateActiveExiting", "ValidatorStateActiveSlashed", "ValidatorStateExitedUnslashed", "ValidatorStateExitedSlashed", "ValidatorStateWithdrawalPossible", "ValidatorStateWithdrawalDone"},
+		"IsAttesting":  {"ValidatorStateActiveOngoing", "ValidatorStateActiveExiting"},
+		"IsExited":     {"ValidatorStateExitedUnslashed", "ValidatorStateExitedSlashed"},
+		"HasExited":    {"ValidatorStateExitedUnslashed", "ValidatorStateExitedSlashed", "ValidatorStateWithdrawalPossible", "ValidatorStateWithdrawalDone"},
+	}
+	core.EnumCallHook = func(c *ssa.Call, get func(ssa.Value) (constant.Value, bool)) (constant.Value, bool) {
+		callee := c.Call.StaticCallee()
+		if callee == nil || callee.Signature.Recv() == nil || !strings.HasSuffix(callee.Signature.Recv().Type().String(), "ValidatorState") || len(c.Call.Args) != 1 {
+			return nil, false
+		}
+		v, ok := get(c.Call.Args[0])
+		if !ok {
+			return nil, false
+		}
+		if callee.Name() == "HasBalance" {
+			return constant.MakeBool(!constant.Compare(v, token.EQL, stateConsts["ValidatorStateUnknown"])), true
+		}
+		set, ok := libPred[callee.Name()]
+		if !ok {
+			return nil, false
+		}
+		for _, n := range set {
+			if cv, ok := stateConsts[n]; ok && constant.Compare(v, token.EQL, cv) {
+				return constant.MakeBool(true), true
+			}
+		}
+		return constant.MakeBool(false), true
+	}
 
 	evalPredicate := func(f *ssa.Function, want []string, construct, pos string) {
 		wantSet := map[string]bool{}
@@ -387,7 +421,7 @@ func runC13(p *core.Prog, r *core.Report, tier string) {
 				return true
 			}}.Find()
 			r.Check(w == nil && len(est) > 0, "C13.e", "dirk|refreshAccounts|replace-"+id.Name, p.Pos(st.Pos()), id.Name+" is replaced only when the refresh did not come back empty over a non-empty list", "an empty refresh can replace the known "+id.Name+" (everything known is wiped until the next good refresh)", p.WitnessText(w)...)
-			r.Check(la.HeldAt(f)[in].HasName("mutex", true), "C13.e", "dirk|refreshAccounts|replace-"+id.Name+"|locked", p.Pos(st.Pos()), "replaced under the write lock", id.Name+" replaced without the write lock")
+			r.Check(la.HeldAt(f)[in].HasOwner(id.Owner, true), "C13.e", "dirk|refreshAccounts|replace-"+id.Name+"|locked", p.Pos(st.Pos()), "replaced under the write lock", id.Name+" replaced without the write lock")
 		})
 		r.Floor("C13.e dirk replacing stores", nStore, 2)
 	} else {
@@ -438,7 +472,7 @@ func runC13(p *core.Prog, r *core.Report, tier string) {
 				return -1
 			})
 			r.Check(w == nil, "C13.e", "validatorsmanager|replace-"+id.Name+"|non-empty", p.Pos(st.Pos()), "replaced only by a non-empty result", "an empty result can replace the known validators", p.WitnessText(w)...)
-			r.Check(la.HeldAt(f)[in].HasName("validatorsMutex", true), "C13.e", "validatorsmanager|replace-"+id.Name+"|locked", p.Pos(st.Pos()), "replaced under the write lock", "replaced without the write lock")
+			r.Check(la.HeldAt(f)[in].HasOwner(id.Owner, true), "C13.e", "validatorsmanager|replace-"+id.Name+"|locked", p.Pos(st.Pos()), "replaced under the write lock", "replaced without the write lock")
 		})
 		r.Floor("C13.e validators manager replacing stores", nSt, 3)
 		// the three maps are filled from the same element
